@@ -74,7 +74,11 @@ class RawStream(FM.FormulaStream):
 
     def oracle(self, case, obs):
         out = []
-        if case.get("wellformed") and not obs.get("no_inputs"):
+        if case.get("wellformed") and not obs.get("no_inputs") and case["rows"]:
+            try:
+                FM.raw_ref(case, case["rows"][0])
+            except (AssertionError, ValueError, IndexError, TypeError, KeyError):
+                return out          # a shrunk call sequence that is no longer well-formed: not judged
             FM.judge_rows(case, obs, lambda row: FM.raw_ref(case, row), out)
         return out
 
